@@ -17,6 +17,29 @@ pub fn run_e1<F: Future>(seed: u64, io: bool, ctx: &Ctx, fut: F) -> F::Output {
     }
     b.start_paused(true);
     b.rng_seed(RngSeed::from_bytes(&seed.to_le_bytes()));
+    // Livelock breaker ("CPU time is not free"): virtual time normally advances only when nothing
+    // is runnable. If tasks keep each other runnable without ever touching a timer (e.g. a
+    // component re-waking itself until a deadline passes), the clock would stand still forever.
+    // After LIVELOCK_POLLS consecutive task polls at one virtual instant the clock is charged 1 ms.
+    {
+        let ctx = ctx.clone();
+        let state = std::sync::Mutex::new((None::<tokio::time::Instant>, 0u64));
+        b.on_before_task_poll(move |_| {
+            let now = tokio::time::Instant::now();
+            let mut g = state.lock().unwrap();
+            if g.0 == Some(now) {
+                g.1 += 1;
+                if g.1 >= LIVELOCK_POLLS {
+                    g.1 = 0;
+                    drop(g);
+                    charge_clock(Duration::from_millis(1));
+                    ctx.count("probe.busy_clock_charge");
+                }
+            } else {
+                *g = (Some(now), 0);
+            }
+        });
+    }
     let rt = b.build().expect("runtime");
     let local = tokio::task::LocalSet::new();
     let ctx2 = ctx.clone();
@@ -32,6 +55,16 @@ pub fn run_e1<F: Future>(seed: u64, io: bool, ctx: &Ctx, fut: F) -> F::Output {
     rt.shutdown_timeout(Duration::from_millis(0));
     ctx.freeze(false);
     out
+}
+
+pub const LIVELOCK_POLLS: u64 = 20_000;
+
+/// Advances the paused tokio clock from synchronous code: the first poll of `time::advance`
+/// moves the clock, the rest of that future (a yield) is not needed.
+pub fn charge_clock(d: Duration) {
+    let mut fut = std::pin::pin!(tokio::time::advance(d));
+    let mut cx = std::task::Context::from_waker(std::task::Waker::noop());
+    let _ = Future::poll(fut.as_mut(), &mut cx);
 }
 
 /// Yields to the scheduler `n` times (lets every other ready task run `n` rounds).
